@@ -327,4 +327,47 @@ theorem body_backward_interior (p : Params) (fuel : Nat) (ds : List PyDate) (hb 
       simp only [hm, Except.ok.injEq] at h
       exact ⟨rolls, adj, hr, hm, h.symm⟩
 
+/-- C16 (FORWARD): the list built by `generate` before the end-point handling is
+`adjust([effective, effective + period, effective + 2·period, …]) ++ [termination]`: the rolls are whole periods
+from the anchor (the effective date) for consecutive `k = 1, 2, …` while they are before the termination date. -/
+theorem body_forward_interior (p : Params) (fuel : Nat) (ds : List PyDate) (hb : p.backward = false)
+    (h : body o p fuel = .ok ds) :
+    ∃ rolls adj : List PyDate,
+      (rolls = [] ∨ rolls.head? = some p.effective) ∧
+      (∀ i (hi : i + 1 < rolls.length), rollF o p (1 + i) = .ok (rolls[i + 1])) ∧
+      mapE o.adjust rolls = .ok adj ∧ ds = adj ++ [p.termination] := by
+  simp only [body, hb, Bool.false_eq_true, if_false] at h
+  cases hl : forwardLoop o p fuel 1 p.effective [p.effective] with
+  | error e => simp [hl] at h
+  | ok un =>
+    simp only [hl] at h
+    obtain ⟨rolls, hun, hh, hr⟩ := forwardLoop_rolls o p fuel 1 p.effective [p.effective] un hl
+    subst hun
+    simp only [List.singleton_append, List.drop_succ_cons, List.drop_zero] at h
+    cases hm : mapE o.adjust rolls with
+    | error e => simp [hm] at h
+    | ok adj =>
+      simp only [hm, Except.ok.injEq] at h
+      exact ⟨rolls, adj, hh, hr, hm, h.symm⟩
+
+/-- C16 "no date is lost or duplicated", for the whole of `generate`: the returned dates are exactly the distinct
+dates of `effective :: interior ++ [termination (adjusted iff requested)]` — every date of that list is
+represented (same serial) in the result, and every returned date is one of them. -/
+theorem generate_no_loss (p : Params) (fuel : Nat) (r : Result) (h : generate o p fuel = .ok r) :
+    ∃ (ds : List PyDate) (first : PyDate) (rest : List PyDate),
+      body o p fuel = .ok ds ∧
+      (if p.adjustTermination then (p.effective :: ds.drop 1).dropLast ++ [r.termination] else p.effective :: ds.drop 1)
+        = first :: rest ∧
+      (∀ x ∈ first :: rest, ∃ y ∈ r.dates, y.serial = x.serial) ∧ (∀ y ∈ r.dates, y ∈ first :: rest) := by
+  unfold generate at h
+  split at h
+  · cases h
+  · cases hb : body o p fuel with
+    | error e => simp [hb] at h
+    | ok ds =>
+      simp only [hb] at h
+      obtain ⟨t', first, rest, _, hlist, hd, _, ht⟩ := post_ok o p ds r h
+      subst ht
+      exact ⟨ds, first, rest, rfl, hlist, dedup_no_loss first rest r.dates hd, dedup_subset first rest r.dates hd⟩
+
 end FinVerif.Props.C16
